@@ -536,11 +536,11 @@ CAMLprim value vp_usrc_free(value uv)
 #undef mkstemp
 #include <pthread.h>
 static pthread_mutex_t vp_mkstemp_m = PTHREAD_MUTEX_INITIALIZER;
-static char vp_templates[256][256]; static long vp_mkstemp_calls = 0;
+static char vp_templates[256][4400]; static long vp_mkstemp_calls = 0;   /* room for PATH_MAX */
 int vp_mkstemp(char *template)
 {
 	pthread_mutex_lock(&vp_mkstemp_m);
-	if (vp_mkstemp_calls < 256) { strncpy(vp_templates[vp_mkstemp_calls], template, 255); }
+	if (vp_mkstemp_calls < 256) { strncpy(vp_templates[vp_mkstemp_calls], template, 4399); }
 	vp_mkstemp_calls++;
 	pthread_mutex_unlock(&vp_mkstemp_m);
 	return mkstemp(template);
